@@ -17,6 +17,7 @@ def dispatch (cmd : String) (args : List String) : String :=
   | "BKD" => bkd args
   | "RUN" => runCmd args
   | "VM" => vmCmd args
+  | "LOW" => lowCmd args
   | "CMP" => cmp args
   | "AST" => ast args
   | "ORC" => (match args with
